@@ -76,6 +76,8 @@ def to_set(ex, v, node, esort_hint=None):
     return VSet(v.dom, v.ksort)
   if isinstance(v, VOpaque) and ('opaque.toset', v.okind) in L:
     return L[('opaque.toset', v.okind)](ex, v, node)
+  if hasattr(v, 'py_toset'):
+    return v.py_toset(ex, node)
   ex.unsupported(node, 'set() of %s' % v.kind)
 
 
@@ -145,13 +147,15 @@ def _list(ex, args, kwargs, node):
     ctx.assume(s.length == cardlemmas.card(v.t))
     return s
   if isinstance(v, VSeq):
-    return VSeq(v.length, v.at, v.esort, v.elems, v.dupfree)
+    return VSeq(v.length, v.at, v.esort, v.elems, v.dupfree, sid=v.sid)
   if isinstance(v, VTuple):
     return VTuple(list(v.items), tname='list')
   if isinstance(v, VCallable) and v.what == 'genexp':
     return L['list.comprehension'](ex, v.target[0], v.target[1])
   if isinstance(v, VOpaque) and ('opaque.tolist', v.okind) in L:
     return L[('opaque.tolist', v.okind)](ex, v, node)
+  if hasattr(v, 'py_tolist'):
+    return v.py_tolist(ex, node)
   ex.unsupported(node, 'list() of %s' % v.kind)
 
 
@@ -389,6 +393,8 @@ def _comprehension(ex, node, env, as_set):
     ex.unsupported(node, 'nested comprehension')
   g = node.generators[0]
   src = ex.eval(g.iter, env)
+  if hasattr(src, 'py_iter'):
+    src = src.py_iter(ex, node)
   if isinstance(src, VTuple):
     items = []
     for item in src.items:
@@ -461,6 +467,8 @@ def _comprehension(ex, node, env, as_set):
   et = elt
   if isinstance(et, VOpt):
     et = et.val
+  if isinstance(et, VStr):
+    return VStr('<list of strings>')     # only ever joined into a message
   if isinstance(et, (VInt, VBool)):
     rs, tt = z3.IntSort(), num_term(et)
   elif isinstance(et, (VOpaque, VSet, VReal)):
@@ -546,11 +554,9 @@ def _str_format(ex, recv, args, kwargs, node):
 def _str_join(ex, recv, args, kwargs, node):
   v = args[0]
   bad = None
-  if isinstance(v, VSeq) and v.esort == z3.IntSort():
-    bad = v.length > 0
-  elif isinstance(v, VSet) and v.esort == z3.IntSort():
-    bad = v.t != z3.EmptySet(v.esort)
-  elif isinstance(v, VTuple) and any(
+  # geo IDs (strings) are integer codes, so symbolic containers cannot be
+  # told apart from index containers here; only literal numbers are flagged.
+  if isinstance(v, VTuple) and any(
       isinstance(i, (VInt, VReal, VBool)) for i in v.items):
     bad = z3.BoolVal(True)
   if bad is not None:
@@ -631,7 +637,8 @@ def _l_slice(ex, args, kwargs, node):
   if not isinstance(lo, VNone):
     ex.unsupported(node, 'list slice with a lower bound')
   if isinstance(hi, VNone):
-    return VSeq(recv.length, recv.at, recv.esort, recv.elems, recv.dupfree)
+    return VSeq(recv.length, recv.at, recv.esort, recv.elems, recv.dupfree,
+                sid=recv.sid)
   h = num_term(ex.need_not_none(hi, node, 'slice bound'))
   n = recv.length
   # Python: negative bounds count from the end
@@ -653,7 +660,7 @@ def _l_concat(ex, args, kwargs, node):
   a, b = args
   ctx = ex.ctx
   if isinstance(a, VSeq) and a.esort is None and isinstance(b, VSeq):
-    return VSeq(b.length, b.at, b.esort, b.elems, b.dupfree)
+    return VSeq(b.length, b.at, b.esort, b.elems, b.dupfree, sid=b.sid)
   if isinstance(a, VSeq) and isinstance(b, VSeq):
     out = TSeq(a.esort).fresh(ctx, 'cat')
     ctx.assume(out.length == a.length + b.length)
